@@ -191,6 +191,11 @@ template <class View> void touch_all(View const& v) {
     for (auto it = v.begin(); it != v.end(); ++it) { acc = *it; *it = acc; }
     for (int y = 0; y < v.height(); ++y) for (auto it = v.row_begin(y); it != v.row_end(y); ++it) { acc = *it; }
     for (int x = 0; x < v.width(); ++x) for (auto it = v.col_begin(x); it != v.col_end(x); ++it) { acc = *it; }
+    // ... and backwards: decrementing iterators, reverse iterators
+    for (auto it = v.end(); it != v.begin();) { --it; acc = *it; *it = acc; }
+    for (auto it = v.rbegin(); it != v.rend(); ++it) { acc = *it; }
+    for (int y = 0; y < v.height(); ++y) for (auto it = v.row_end(y); it != v.row_begin(y);) { --it; acc = *it; *it = acc; }
+    for (int x = 0; x < v.width(); ++x) for (auto it = v.col_end(x); it != v.col_begin(x);) { it--; acc = *it; }
     (void)acc;
 }
 
@@ -328,6 +333,14 @@ template <class Img, int MAXD> void kind_images() {
                   int al2 = al == 0 ? 8 : al == 32 ? 4 : al * 2;
                   rc.recreate(w, h, (std::size_t)al2); one_image<Img, 1>(rc, "recreate_realign", al2, rng);
                   rc.recreate(w + 2, h + 1, (std::size_t)al2); one_image<Img, 1>(rc, "recreate_realign_grow", al2, rng); }
+                // the overloads that take a fill value (and the point_t spellings)
+                { typename Img::value_type fv{}; int al2 = al == 0 ? 16 : al == 32 ? 2 : al * 2;
+                  Img rf(w + 1, h + 1, (std::size_t)al); rf.recreate(w, h, fv, (std::size_t)al2); one_image<Img, 1>(rf, "recreatefill_realign_shrink", al2, rng);
+                  rf.recreate(typename Img::point_t(w + 1, h + 2), fv, (std::size_t)al2); one_image<Img, 1>(rf, "recreatefill_grow", al2, rng);
+                  rf.recreate(typename Img::point_t(w, h), fv, (std::size_t)al); one_image<Img, 1>(rf, "recreatefill_shrink", al, rng);
+                  Img rg(w, h, (std::size_t)al); rg.recreate(w, h, fv, (std::size_t)al2); one_image<Img, 1>(rg, "recreatefill_realign", al2, rng);
+                  Img ra(w + 1, h, (std::size_t)al); ra.recreate(w, h + 1, (std::size_t)al2, typename Img::allocator_type()); one_image<Img, 1>(ra, "recreatealloc_realign", al2, rng);
+                  ra.recreate(w + 1, h + 1, fv, (std::size_t)al, typename Img::allocator_type()); one_image<Img, 1>(ra, "recreatefillalloc_grow", al, rng); }
             }
         });
     }
